@@ -24,7 +24,10 @@ func Shrink(c *Case, owned map[string]bool, budget int) *Case {
 		// not depend on scheduler luck (e.g. keeps the plug of a burst)
 		for rep := 0; rep < 2; rep++ {
 			budget--
-			w := Exec(x)
+			w, _ := ExecQuiet(x)
+			if w == nil {
+				return false // no verdict for this candidate: not taken
+			}
 			bad := false
 			for _, f := range w.Findings {
 				if owned[f.Class] {
